@@ -54,8 +54,8 @@ type vpGen struct {
 	verBits int // versions < 2^verBits (8, 16, 32 or 64 bit input)
 	expBits int // 0: expiresAt of entry 0 in [2^7, 2^14) (2-byte varint), others < 2^7 (no varint-length
 	// fork); k>0: every expiresAt < 2^k (forks once per varint length)
-	klenFull bool // false: key lengths follow one of klenPats patterns (all 1, all maxK, alternating
-	// from 1, alternating from maxK); true: every combination
+	klenFull bool // false: key lengths follow one of the first klenPats patterns of (alternating 1,maxK,1,..;
+	// all maxK; all 1; alternating maxK,1,maxK,..); true: every combination
 	klenPats int
 	vfull    bool // false: value length of entry i = (i+1) mod (maxV+1); true: every combination
 }
@@ -170,7 +170,7 @@ func vpGenEntries(n int, g vpGen) []vpEnt {
 			kl = 1 + vpChoose("klen", g.maxK)
 		case pat == 1:
 			kl = g.maxK
-		case pat == 2 && i%2 == 1, pat == 3 && i%2 == 0:
+		case pat == 0 && i%2 == 1, pat == 3 && i%2 == 0:
 			kl = g.maxK
 		}
 		k, ver := vpSymKey("k", kl, g)
